@@ -33,6 +33,7 @@ type resCfg struct {
 	ShareBase int       `json:"share_base"`
 	MaxShare  int       `json:"max_share"`
 	Nodes     []resNode `json:"nodes"`
+	Shadow    bool      `json:"shadow,omitempty"` // a second, bookkeeping-free plugin next to cpumem
 }
 
 type resNode struct {
@@ -160,6 +161,11 @@ func (resH) Generate(property string, seed uint64, tier string) *Case {
 		for k := g.IntN(3); k > 0; k-- {
 			plan.ErrAt = append(plan.ErrAt, 2*len(cfg.Nodes)+g.IntN(nops*3))
 		}
+	}
+	if property == "C08" && g.IntN(3) == 0 {
+		// the manager's multi-plugin paths: a second party that can fail after cpumem wrote
+		cfg.Shadow = true
+		plan.ErrAt = append(plan.ErrAt, 4*len(cfg.Nodes)+g.IntN(nops*5))
 	}
 	return &Case{Plan: plan, Cfg: mustJSON(cfg), Ops: ops}
 }
@@ -546,6 +552,10 @@ func (resH) Execute(c *Case, res *Result) {
 	plugin := cpumem.NewPluginWithStore(w.ccfg, kv)
 	mgr, _ := cobalt.New(w.ccfg)
 	mgr.AddPlugins(&guardPlugin{Plugin: plugin, w: w})
+	if cfg.Shadow {
+		mgr.AddPlugins(&shadowPlugin{sim: sim, inst: inst})
+		res.Probes["shadow_plugin_runs"]++
+	}
 	w.mgr = mgr
 
 	var ops []resOp
